@@ -639,11 +639,85 @@ def e1_tempering(tier):
     return r
 
 
+def extract_payload_fields():
+    """Model extraction: which live fields of the sampler a real checkpoint payload carries, and which
+    of them a real restore_from_checkpoint sets from the payload (observed on the working tree)."""
+    import numpy as np
+    import smcdrv
+    r = smcdrv.run_smc(dict(N=6, every=1, max_n_steps=3, width=0.3, seed=5, mcmc_steps=1, n_final=9))
+    states = [e["_state"] for e in r["tracer"].ev if e["t"] == "ckpt"]
+    if r["status"] != "ok" or not states:
+        raise MachineryError(f"extraction run failed: {r['status']} {r['exc']}")
+    st = pickle.loads(r["tracer"].payloads[0])          # a mid-run payload, as serialised
+    meta = st.get("meta") or {}
+    payload = set()
+    if st.get("samples") is not None:
+        payload |= {"pop", "size"}
+    if st.get("iteration") is not None:
+        payload.add("iter")
+    if meta.get("beta") is not None:
+        payload.add("beta")
+    if st.get("history") is not None:
+        payload.add("hist")
+    if st.get("rng_state") is not None:
+        payload.add("rng")
+    if meta.get("min_step") is not None:
+        payload.add("minStep")
+    # restore on a fresh sampler with another generator
+    Cls = smcdrv.sampler_class("minipcn_smc")
+    xp = smcdrv.get_xp("numpy")
+    prob = smcdrv.Problem(2, 0.3, 1.0)
+    tr = smcdrv.Tracer(prob, smcdrv.IdTable())
+    fresh = Cls(log_likelihood=tr.log_likelihood, log_prior=tr.log_prior, dims=2,
+                prior_flow=smcdrv.make_flow(dict(smcdrv.DEFAULT), prob, xp), xp=xp,
+                parameters=["x_0", "x_1"], rng=np.random.default_rng(999))
+    before_rng = json.dumps(fresh.rng.bit_generator.state, default=str)
+    samples, beta, it = fresh.restore_from_checkpoint(pickle.loads(r["tracer"].payloads[0]))
+    restored = set()
+    if np.array_equal(smcdrv.to_np(samples.x), smcdrv.to_np(st["samples"].x)):
+        restored |= {"pop", "size"}
+    if it == st.get("iteration"):
+        restored.add("iter")
+    if beta == meta.get("beta"):
+        restored.add("beta")
+    H = getattr(fresh, "history", None)
+    if H is not None and st.get("history") is not None and list(map(float, H.beta)) == list(map(float, st["history"].beta)) \
+            and len(H.sample_history) == len(st["history"].sample_history):
+        restored.add("hist")
+    if json.dumps(fresh.rng.bit_generator.state, default=str) != before_rng and \
+            json.dumps(fresh.rng.bit_generator.state, default=str) == json.dumps(st.get("rng_state"), default=str):
+        restored.add("rng")
+    if meta.get("min_step") is not None and any(getattr(fresh, a, None) == meta.get("min_step") for a in vars(fresh)):
+        restored.add("minStep")
+    return sorted(payload), sorted(restored & payload)
+
+
 def e1_smcrun(tier):
-    cfg = "MC_SMCRun.cfg" if tier == "quick" else "MC_SMCRun_deep.cfg"
-    r = run_tlc("MC_SMCRun", cfg, workers=16)
-    require_tlc_ok(r, "MC_SMCRun")
-    return r
+    """SMCRun.tla exhaustive, with PayloadFields / RestoredFields extracted from the working tree."""
+    payload, restored = extract_payload_fields()
+    wd = workdir("smcrun-e1")
+    try:
+        q = lambda xs: "{" + ", ".join(f'"{x}"' for x in xs) + "}"
+        (wd / "SMCRun.tla").write_text((common.SPEC / "SMCRun.tla").read_text())
+        (wd / "MC_SMCRunX.tla").write_text(
+            "---- MODULE MC_SMCRunX ----\nEXTENDS SMCRun\n"
+            "MCArgs == { [every |-> e, nfinal |-> f, maxn |-> m, path |-> p] : e \\in 0..3, f \\in {0, 4}, m \\in {0, 2}, p \\in BOOLEAN }\n"
+            'MCRoutes == {"bytes", "dict", "path", "file"}\n'
+            f"MCPayload == {q(payload)}\nMCRestored == {q(restored)}\n====\n")
+        deep = tier != "quick"
+        (wd / "MC_SMCRunX.cfg").write_text(
+            "SPECIFICATION Spec\nCONSTANTS\n"
+            f"  K = {5 if deep else 4}\n  MaxIter = {4 if deep else 3}\n  ArgSet <- MCArgs\n  MaxCrashes = 2\n  Routes <- MCRoutes\n"
+            "  PayloadFields <- MCPayload\n  RestoredFields <- MCRestored\n  ReappendOnResume = FALSE\n  CapAwareResume = TRUE\n"
+            "VIEW View\n" + "".join(f"INVARIANT {i}\n" for i in (
+                "HistoryFaithful", "EvidenceTerms", "EvidenceSum", "EvidenceIndependent", "ScheduleOK", "CadenceExact",
+                "FileHoldsLatest", "ConfigAndFlowPresent", "Loadable", "ResumeRestoresState", "ResumeDeterministic")))
+        r = run_tlc("MC_SMCRunX", "MC_SMCRunX.cfg", workers=16, specdir=wd, metaname="smcrun-e1", timeout=3000)
+        require_tlc_ok(r, "MC_SMCRunX")
+        r.extracted = {"PayloadFields": payload, "RestoredFields": restored}
+        return r
+    finally:
+        cleanup(wd)
 
 
 def e3_blob(verdict, tier, seed):
@@ -871,7 +945,8 @@ def run_check(prop, tier, seed, corpus_fn, e1_fns, note_rule, replay=None, extra
         tlc_states += r.distinct
         tlc_trans += r.generated
         e1_info.append({"module": r.cmd[-1], "distinct_states": r.distinct, "states_generated": r.generated,
-                        "wall_s": round(r.wall, 1), "violated": r.violated})
+                        "wall_s": round(r.wall, 1), "violated": r.violated,
+                        "constants_extracted_from_code": getattr(r, "extracted", None)})
         for inv in r.violated:
             verdict.model_drift(f"design model {r.cmd[-1]}: invariant {inv} violated (design-level only; not confirmed on code)")
     only_extra = bool(replay) and replay.get("builder") in ("routing_case", "blob")
